@@ -297,3 +297,14 @@ add("C28", "jax matern exponent", "nifty/re/correlated_field.py", "            0
 add("C28", "classic matern volume factor", "nifty/cl/library/correlated_fields.py", "        vol1[1:] = totvol**0.5", "        vol1[1:] = totvol", "R28.2")
 add("C28", "classic matern cutoff power", "nifty/cl/library/correlated_fields.py", "cutoff = VdotOperator(k_squared).adjoint @ cutoff.power(-2.)", "cutoff = VdotOperator(k_squared).adjoint @ cutoff.power(-1.)", "R28.2")
 VARIANTS = V
+
+LIP = "nifty/re/likelihood_impl.py"
+add("C12", "poisson transformation factor", LIP, "        return 2.0 * primals**0.5", "        return primals**0.5", "R12.5")
+add("C12", "poisson metric not inverse", LIP, "    def metric(self, primals, tangents):\n        return tangents / primals\n", "    def metric(self, primals, tangents):\n        return tangents * primals\n", "R12.5")
+add("C12", "student-t metric constant", LIP, "        return self.noise_cov_inv((self.dof + 1) / (self.dof + 3) * tangents)", "        return self.noise_cov_inv((self.dof + 1) / (self.dof + 2) * tangents)", None)
+add("C12", "gaussian residual not whitened", LIP, "    def normalized_residual(self, primals):\n        return self.noise_std_inv(self.data - primals)", "    def normalized_residual(self, primals):\n        return self.noise_cov_inv(self.data - primals)", "R12.5")
+add("C12", "poisson energy sign", LIP, "        return sum(primals) - vdot(tree_map(jnp.log, primals), self.data)", "        return sum(primals) + vdot(tree_map(jnp.log, primals), self.data)", "R12.5")
+VARIANTS = V
+
+add("C16", "sy cache written symmetrically", "nifty/cl/minimization/descent_minimizers.py", "            self.sy[kmi, k1] = self.s[kmi].s_vdot(self.y[k1])", "            self.sy[kmi, k1] = self.sy[k1, kmi] = self.s[kmi].s_vdot(self.y[k1])", "R16.3")
+VARIANTS = V
